@@ -123,6 +123,7 @@ HardwareSerial Serial;
 
 void setup();
 void loop();
+extern "C" void __verif_prestate() __attribute__((weak));
 
 // live heap accounting for C09 replays
 static long g_live_blocks = 0;
@@ -137,6 +138,7 @@ int main(int argc, char **argv) {
   int passes = argc > 1 ? atoi(argv[1]) : 1;
   printf("marker setup\n");
   setup();
+  if (__verif_prestate) __verif_prestate();
   printf("heap %ld\n", g_live_blocks);
   for (int i = 0; i < passes; ++i) {
     printf("marker loop\n");
